@@ -124,13 +124,34 @@ AdjOf(S, n, root, acc) ==
   IF ps = <<>> THEN None
   ELSE Some(AdjCanon(n, SumTensors([i \in 1..Len(ps) |-> Contribution(S, ps[i][1], ps[i][2], acc[ps[i][1]].x)] \o <<>>)))
 
-\* descending from the root: acc maps every node above n to None | Some(adjoint).
+\* THE DEFINITION (gather form): descending from the root, acc maps every node above n to None | Some(adjoint).
 \* (Strict: the accumulated map is passed as a value, not re-evaluated at each level.)
 RECURSIVE AdjDown(_,_,_,_)
 AdjDown(S, root, n, acc) ==
   IF n = 0 THEN acc
   ELSE Strict(acc @@ (n :> AdjOf(S, n, root, acc)), LAMBDA a2 : AdjDown(S, root, n - 1, a2))
-RefAdj(S, root, seed) == AdjDown(S, root, root - 1, (root :> Some(seed)))
+RefAdjDef(S, root, seed) == AdjDown(S, root, root - 1, (root :> Some(seed)))
+
+\* The same function in scatter form, linear in the number of edges (the gather form scans all pairs of nodes,
+\* which is quadratic - too slow for graphs of hundreds of nodes in trace validation).  Nodes are visited in
+\* descending order, so when node c is visited every consumer of c has already delivered: its adjoint is
+\* complete; it then adds its contributions to its tracked operands, in operand order.  Same summation order
+\* as the gather form (consumers descending, positions ascending).  GenEngine!AdjFormsAgree makes TLC check
+\* RefAdj = RefAdjDef on every graph and root of its bounded exploration.
+PutAdj(acc, k, t) == [acc EXCEPT ![k] = IF acc[k].none THEN Some(t) ELSE Some(TAdd(acc[k].x, t))]
+RECURSIVE ScatterKids(_,_,_,_)
+ScatterKids(S, c, i, acc) ==
+  IF i > Len(S.nodes[c].kids) THEN acc
+  ELSE IF ~S.nodes[c].kids[i].trk THEN ScatterKids(S, c, i + 1, acc)
+  ELSE Strict(PutAdj(acc, S.nodes[c].kids[i].n, Contribution(S, c, i, acc[c].x)),
+              LAMBDA a2 : ScatterKids(S, c, i + 1, a2))
+RECURSIVE AdjScatter(_,_,_)
+AdjScatter(S, c, acc) ==
+  IF c = 0 THEN acc
+  ELSE IF acc[c].none THEN AdjScatter(S, c - 1, acc)
+  ELSE Strict(IF c = Len(acc) THEN acc ELSE [acc EXCEPT ![c] = Some(AdjCanon(c, acc[c].x))],
+              LAMBDA a1 : Strict(ScatterKids(S, c, 1, a1), LAMBDA a2 : AdjScatter(S, c - 1, a2)))
+RefAdj(S, root, seed) == AdjScatter(S, root, [n \in 1..root |-> IF n = root THEN Some(seed) ELSE None])
 
 SeedOf(S, h, seedOpt) == IF seedOpt.none THEN Ones(HandleT(S, h).d) ELSE seedOpt.x
 
@@ -148,12 +169,25 @@ MayStore(S, h, adj, n) ==
 
 Accumulate(g, a) == IF g.none THEN a ELSE Some(TAdd(g.x, a.x))
 
+\* nodes used, inside the pass, through at least one tracked handle WITHOUT keep (one scan of the edges)
+WeakKids(S, root, adj) ==
+  UNION { { S.nodes[c].kids[i].n : i \in { j \in 1..Len(S.nodes[c].kids) : S.nodes[c].kids[j].trk /\ ~S.nodes[c].kids[j].keep } }
+          : c \in { m \in 1..root : IsSome(adj[m]) } }
+\* MustStore / MayStore given weak = WeakKids(S, root, adj)  (same predicates, linear instead of quadratic)
+MustStoreW(S, h, adj, weak, n) ==
+  LET root == S.hd[h].n IN
+  /\ n <= root /\ IsSome(adj[n])
+  /\ \/ ~HasKids(S, n)
+     \/ IF n = root THEN S.hd[h].keep ELSE n \notin weak
+MayStoreW(S, h, adj, weak, n) == n <= S.hd[h].n /\ IsSome(adj[n]) /\ ~MustStoreW(S, h, adj, weak, n)
+
 \* the abstract pass; `stored` is the set of may-store nodes that do store
 \* (BackwardWith takes the reference adjoint adj = RefAdj(S, root, seed) computed by the caller)
 BackwardWith(S, h, adj, stored) ==
-  LET root == S.hd[h].n IN
+  LET root == S.hd[h].n
+      weak == WeakKids(S, root, adj) IN
   [S EXCEPT !.grad = [n \in 1..Len(S.nodes) |->
-                        IF n <= root /\ IsSome(adj[n]) /\ (MustStore(S, h, adj, n) \/ n \in stored)
+                        IF n <= root /\ IsSome(adj[n]) /\ (MustStoreW(S, h, adj, weak, n) \/ n \in stored)
                         THEN Accumulate(S.grad[n], adj[n]) ELSE S.grad[n]]]
 Backward(S, h, seedOpt, stored) ==
   BackwardWith(S, h, RefAdj(S, S.hd[h].n, SeedOf(S, h, seedOpt)), stored)
